@@ -354,6 +354,7 @@ def get_cfacts(ctx):
         csym.Sym.GLOBALS = frozenset(facts.globals)
         facts_lookup_like(facts)
         csym.EXTRA_LOOKUPS = frozenset(facts._lookup_like)
+        csym.set_inline_context(ctx, facts)
         return facts
     return ctx.memo("cfacts", with_globals)
 
